@@ -13,7 +13,6 @@ NOT_APPLICABLE = {
     "C02": "acceptance is decided by pass 1/pass 2 over a Vec<Stmt> with HashMap<String,_> and BTreeMap: symbolic execution of SymbolTable::new on a 5-statement all-concrete AST (stack array, S-hash/S-upper stubs) did not finish in 600 s / 11 GB (DESIGN.md section 9); there is no public kernel below it",
     "C03": "needs the logos lexer + parser on symbolic text (3 symbolic bytes: symex out of memory, DESIGN.md section 1). A token-level variant (hook Parser::verif_from_tokens) would drive the Parse impls over a heap Vec<(Token, Span)> with String payloads - the heap-Vec limitation of section 9 - and would not carry the layout-insensitivity half of the property anyway; not built",
     "C04": "needs parse_ast / the lexer loop on arbitrary strings: symbolic execution runs out of memory for 3 symbolic bytes (DESIGN.md section 1)",
-    "C12": "compares whole program runs under two flag settings, incl. the OS exception messages (~400 steps each): out of reach (DESIGN.md section 5); single-step entry into the handlers is decided under C08",
     "C13": "run_while is a loop around step(): Kani has one unwinding bound per harness, and the harness's own bookkeeping loops need 11, so the run loop is unrolled 11 times with a full symbolic step each (2 x 20 GB, no verdict after 20 min in symex). The one-step core that run/step_over/step_out iterate is decided by C08; harness kept in kani/src/c13.rs, unregistered",
     "C17": "ObjectFile is a BTreeMap<u16, Vec<_>> + HashMap<String,_>: building a 1-block object and inserting one block (all keys concrete) did not finish symbolic execution in 300-600 s (B-tree node code, DESIGN.md section 9)",
     "C18": "text format: line splitting, str::parse, escape_default/unescaper over Strings plus the BTreeMap/HashMap containers of C17: out of reach (DESIGN.md sections 5, 9)",
@@ -322,4 +321,15 @@ PROPS["C11"] = dict(
                  bound="GETC, 2 queued bytes, no contention, caller PSR x8002 (cc z)")] +
               [H(n, module="pstep", stubbing=True, kani_args=_K_ARGS, needs_os=True, timeout=1500, encodes=["as c11_getc"], bound=b)
                for n, b in [("c11_getc_ccn", "caller PSR x8004 (cc n)"), ("c11_getc_ccp_prio", "caller PSR x8301 (cc p, priority 3)")]],
+)
+
+PROPS["C12"] = dict(
+    level="model_checking", jobs=1,
+    claim="Inductive core only: one step_in with use_real_traps = true from an arbitrary machine state (any privilege, any pending interrupt) equals the ISA model run with VIRTUAL traps - result, registers, PC, PSR, saved SP, memory, device calls, frame depth, instruction count - for every step that neither halts nor reports an error under virtual traps. Hence two runs of one program under the two settings agree instruction by instruction up to the first HALT or exception.",
+    note="NOT decided: what happens after that point - 'stops through the OS' and 'prints the OS message for that exception and halts' are executions of 25-400 OS instructions (DESIGN.md section 6). The entry into the right OS handler (vector, pushed state) at a HALT / exception under real traps is decided by C08.",
+    design_ref="DESIGN.md section 4 (C12)",
+    bounds="one step; unwind 11; strict off",
+    outside="the OS's HALT and exception handlers running to completion; display output of whole programs",
+    assumptions=_K_ASSUME,
+    harnesses=_kfam("c12_", ["same_step"], [], cover_tags=["mem", "calls", "depth", "c12"]),
 )
